@@ -26,6 +26,8 @@ func enc(v any) string {
 	switch v := v.(type) {
 	case int:
 		return "I " + strconv.Itoa(v)
+	case float64:
+		return "F " + strconv.Itoa(int(v))
 	case string:
 		return "S " + common.Hex(v)
 	case bool:
@@ -52,6 +54,9 @@ func dec(toks []string) (any, []string) {
 	case "I":
 		i, _ := strconv.Atoi(toks[1])
 		return i, toks[2:]
+	case "F":
+		i, _ := strconv.Atoi(toks[1])
+		return float64(i), toks[2:]
 	case "S":
 		return common.Unhex(toks[1]), toks[2:]
 	case "B":
@@ -86,6 +91,11 @@ func decVals(s string) []any {
 func genScalar(r *common.Rand, class int) string {
 	switch class {
 	case 0:
+		// exact and inexact numbers of equal value compare equal but are
+		// distinguishable: stability is observable without &key
+		if r.Chance(1, 3) {
+			return "F " + strconv.Itoa(r.Range(-4, 4))
+		}
 		return "I " + strconv.Itoa(r.Range(-4, 4))
 	case 1:
 		return "S " + common.Hex(common.Pick(r, []string{"", "a", "b", "ab", "abc", "B", "é", "\xff", "10", "9"}))
@@ -438,7 +448,7 @@ func oracle(sti any, f []string, out string) (string, string) {
 
 func classOf(v any) string {
 	switch v.(type) {
-	case int:
+	case int, float64:
 		return "num"
 	case string:
 		return "str"
